@@ -30,6 +30,16 @@ func (c *Ctx) Fail(msg string) {
 	}
 }
 
+// Free runs f with no scheduler active: the shims behave like the real primitives. For
+// harness code that, at the end of an execution, builds fresh objects of the code under test to
+// compute a reference (the threads of the execution are at rest and are not touched).
+func Free(f func()) {
+	s := S
+	S = nil
+	defer func() { S = s }()
+	f()
+}
+
 var resets []func()
 
 func safeReset(f func()) (ok bool) {
